@@ -156,6 +156,11 @@ func main() {
 	if s := os.Getenv("VERIF_SEED"); s != "" {
 		seed, _ = strconv.Atoi(s)
 	}
+	for _, kv := range strings.Split(*mut, ",") {
+		if p := strings.SplitN(kv, "=", 2); len(p) == 2 {
+			mutFiles[p[0]] = p[1]
+		}
+	}
 	if *replayPath != "" {
 		os.Exit(replaySaved(*replayPath))
 	}
